@@ -32,6 +32,7 @@ def dispatch (op : String) (payload : Json) : R Json :=
   | "pipeline" => Pipeline.handle payload
   | "cross_resolve" => C08.handle payload
   | "results_project" => C14.handle payload
+  | "pipeline2" => Pipeline2.handle payload
   | _ => .error s!"unknown op {op}"
 
 partial def loop (h : IO.FS.Stream) (out : IO.FS.Stream) : IO Unit := do
